@@ -338,9 +338,10 @@ Metadata == [ protoPackage |-> package, libraryPackage |-> Root,
                                clients |-> { [kind |-> k, client |-> ClientName(si, k = "grpc-async"),
                                               rpcs |-> { [rpc |-> Rpcs[ri].name, method |-> ClientMethod(si, ri)] : ri \in 1..Len(Rpcs) }]
                                              : k \in MetadataKinds } ] : si \in 1..Len(req.svcs) } ]
-\* the carrier request message: declaration order name, [class], page_size, page_token, filter(required)
-ReqFieldsDecl == <<"name">> \o (IF req.extra = "reserved" THEN <<"class_">> ELSE <<>>) \o <<"page_size", "page_token", "filter">>
-ReqRequired == {"filter"}
+\* the carrier request message: declaration order name, [class], page_size, owner(proto3 optional AND required), page_token, filter(required)
+\* (explicit presence does not make a REQUIRED field any less required: it still stands in the leading group; seed C15-12)
+ReqFieldsDecl == <<"name">> \o (IF req.extra = "reserved" THEN <<"class_">> ELSE <<>>) \o <<"page_size", "owner", "page_token", "filter">>
+ReqRequired == {"owner", "filter"}
 FixupParams == SelectSeq(ReqFieldsDecl, LAMBDA f : f \in ReqRequired) \o SelectSeq(ReqFieldsDecl, LAMBDA f : f \notin ReqRequired)
 \* keyed by the snake-cased RPC name (not the client method name): Import -> "import"
 FixupKey(ri) == IF Rpcs[ri].name = "Import" THEN "import" ELSE IF Rpcs[ri].name = "NonLocal" THEN "non_local" ELSE Rpcs[ri].snake
